@@ -7,6 +7,7 @@ CONSTANTS
   Sigs = {"TERM", "KILL", "INT", "HUP", "STOP", "TSTP", "CONT", "0"}
   JobsOpts = {"", "-l", "-p"}
   KillLNums = {0, 1, 2, 3, 9, 15, 385, 386, 387, 393, 399}
+  MonCmds = {0, 1}
   FgSlots = {1, 2, 3}
   StartWith = "none"
 INVARIANT TableConsistent
